@@ -702,7 +702,7 @@ def plan(ctx: Ctx):
         exh(5, 4, "lite", sec="some")
         exh(4, 5, "lite", sec="some")
         dense_shapes = [(5, 5), (6, 4), (6, 5), (5, 6), (7, 4), (6, 6), (7, 5), (8, 4), (8, 5), (8, 6)]
-        n_dense, n_named = 200000, 60000
+        n_dense, n_named = 120000, 40000
     items, seen = [], set()
     for k in range(n_dense):
         R, C = dense_shapes[k % len(dense_shapes)]
